@@ -3,6 +3,7 @@ package payment
 import (
 	"context"
 	"encoding/json"
+	"errors"
 	"github.com/my-cloud/ruthenium/validatornode/application"
 
 	gp2p "github.com/leprosus/golang-p2p"
@@ -25,6 +26,9 @@ func (controller *TransactionsController) HandleTransactionRequest(_ context.Con
 	res := gp2p.Data{}
 	if err := json.Unmarshal(data, &transactionRequest); err != nil {
 		return res, err
+	}
+	if transactionRequest == nil {
+		return res, errors.New("transaction request is null")
 	}
 	go controller.transactionsManager.AddTransaction(transactionRequest.Transaction(), transactionRequest.TransactionBroadcasterTarget(), controller.sendersManager.HostTarget())
 	return res, nil
